@@ -120,6 +120,8 @@ def plan(tier, seed):
                 fl.append({"gen": "flood_challenge", "victim": victim, "variant": variant, "n": nn, "seed": s})
             for variant in ("noack", "burst", "ack", "fill"):
                 fl.append({"gen": "flood_ncid", "victim": victim, "variant": variant, "n": 5000 * scale, "seed": s})
+            for variant, per in (("late_burst", 40), ("late_noack", 40), ("late_noack", 10), ("late_ack", 25), ("late_ack", 40), ("late_mixed", 12), ("late_burst", 5)):
+                fl.append({"gen": "flood_ncid", "victim": victim, "variant": variant, "per": per, "n": 2000 * scale, "seed": s})
             for variant in ("compliant", "hostile_conn", "hostile_count", "compliant_uni"):
                 fl.append({"gen": "flood_streams", "victim": victim, "variant": variant, "n": min(1500 * scale, 6000), "seed": s})
     # interleave so that a budget cut-off loses a bit of everything
@@ -877,18 +879,23 @@ RELEVANT = {
 }
 
 
+def _vlabel(batch):
+    v = batch.get("variant", "")
+    return "%s%d" % (v, batch["per"]) if "per" in batch else v
+
+
 def flood_finish(res, batch, bounds, frames, closed, extra=None):
     res.evaluations += 1
     res.count("o2_flood_runs")
     res.count("o2_flood_frames", frames)
     out = "closed:" + code_name(closed[0]) if closed else "open"
-    res.count("o2_%s_%s_%s" % (batch["gen"], batch.get("variant", ""), out))
+    res.count("o2_%s_%s_%s" % (batch["gen"], _vlabel(batch), out))
     for k in RELEVANT[batch["gen"]]:
         if k in bounds.max:  # summed over runs by the runner: divide by o2_runs_<gen>_<variant>
-            res.count("o2sum_%s_%s_%s" % (batch["gen"][6:], batch.get("variant", ""), k), bounds.max[k])
-    res.count("o2_runs_%s_%s" % (batch["gen"][6:], batch.get("variant", "")))
+            res.count("o2sum_%s_%s_%s" % (batch["gen"][6:], _vlabel(batch), k), bounds.max[k])
+    res.count("o2_runs_%s_%s" % (batch["gen"][6:], _vlabel(batch)))
     if frames >= min(batch["n"], 1000) or closed:
-        res.nontrivial.add("flood:%s:%s:%s:%s:%s" % (batch["gen"], batch["victim"], batch.get("space", ""), batch.get("variant", ""), out))
+        res.nontrivial.add("flood:%s:%s:%s:%s:%s" % (batch["gen"], batch["victim"], batch.get("space", ""), _vlabel(batch), out))
     s = {"case": batch, "frames": frames, "outcome": out, "max": bounds.max}
     if extra:
         s.update(extra)
@@ -1015,7 +1022,8 @@ def gen_flood_challenge(batch, res):
 
 def gen_flood_ncid(batch, res):
     """NEW_CONNECTION_ID: increasing retire_prior_to while P never acknowledges ('noack'), with no send cycle for R in
-    between ('burst'), acknowledging everything ('ack'); or issuing IDs without retiring any ('fill')."""
+    between ('burst'), acknowledging everything ('ack'); or issuing IDs without retiring any ('fill'); 'late_*': frames
+    whose never-seen sequence number lies below an already delivered Retire Prior To (see _late_ncid)."""
     from ..simnet import ApiRaised
 
     pair, pup, model, tp = flood_setup(batch, {})
@@ -1029,6 +1037,15 @@ def gen_flood_ncid(batch, res):
     frames = 0
     base_done = False
     cid_len = len(pup.my_cid)
+    if variant.startswith("late"):
+        frames, closed = _late_ncid(batch, res, pup, R, b, w, rng, cid_len)
+        b.measure(closed)
+        if not closed and w.base is not None:
+            b.check_growth(w.growth(), frames)
+        if closed and closed[0] != CONNECTION_ID_LIMIT_ERROR:
+            res.count("obs_flood_ncid_closed_" + code_name(closed[0]))
+        flood_finish(res, batch, b, frames, closed)
+        return
     for i in range(1, n + 1):
         cid = (0xC0DE0000 + i).to_bytes(cid_len, "big")
         token = rng.getrandbits(128).to_bytes(16, "big")
@@ -1064,6 +1081,66 @@ def gen_flood_ncid(batch, res):
     if closed and closed[0] != CONNECTION_ID_LIMIT_ERROR:
         res.count("obs_flood_ncid_closed_" + code_name(closed[0]))
     flood_finish(res, batch, b, frames, closed)
+
+
+def _late_ncid(batch, res, pup, R, b, w, rng, cid_len):
+    """Second way to queue a retirement: after one NEW_CONNECTION_ID with seq = retire_prior_to = N far ahead, frames with
+    fresh sequence numbers below N (retire_prior_to 0) must each be answered with RETIRE_CONNECTION_ID. `per` such frames
+    per datagram; late_burst: no send cycle for R; late_noack: R's RETIRE frames never acknowledged; late_ack: acknowledged;
+    late_mixed: interleaved with ordinary frames that keep increasing retire_prior_to (acknowledged)."""
+    from ..simnet import ApiRaised
+
+    variant = batch["variant"]
+    n = batch["n"]
+    per = batch.get("per", 40)
+    N = n + 10
+    acked = variant in ("late_ack", "late_mixed")
+    closed = None
+    frames = 0
+    late_seq = iter(rng.sample(range(1, N), n))  # fresh, distinct, in no particular order
+    top = N  # highest ordinary sequence number issued so far
+
+    def ncid(seq, rpt):
+        return F.f_new_connection_id(seq, rpt, (0xC0DE0000 + seq).to_bytes(cid_len, "big"), rng.getrandbits(128).to_bytes(16, "big"))
+
+    def push(payload, cycle):
+        pkt = pup.packet("1rtt", (ack_prefix(pup) if acked else b"") + payload)
+        if cycle:
+            return pup.deliver(pkt)
+        pup.now += 0.0001
+        pup.call("receive_datagram", pkt, pup.addr, now=pup.now)
+        return pup.transmit() if (R._state.name != "CONNECTED" or R._close_pending) else []
+
+    try:
+        views = push(ncid(N, N), variant != "late_burst")
+        frames += 1
+        b.note_views(views, acked)
+        closed = r_closed(pup, views)
+        b.measure(closed)
+        dgrams = 0
+        while frames < n and not closed:
+            payload = b""
+            k = 0
+            while k < per and frames + k < n:
+                if variant == "late_mixed" and rng.random() < 0.3:
+                    top += 1
+                    payload += ncid(top, top)
+                else:
+                    payload += ncid(next(late_seq), 0)
+                k += 1
+            views = push(payload, variant != "late_burst")
+            frames += k
+            dgrams += 1
+            b.note_views(views, acked)
+            closed = r_closed(pup, views)
+            b.measure(closed)
+            if dgrams == 3 and w.base is None:
+                w.baseline()
+            if dgrams % 20 == 0:
+                trim(pup)
+    except ApiRaised as exc:
+        res.count("obs_api_raised_" + type(exc.exc).__name__)
+    return frames, closed
 
 
 def gen_flood_streams(batch, res):
